@@ -4,6 +4,7 @@ import json
 HOOKS=["fbc18f8","332056d","ac125c5","6c6870b"]
 # id -> (level, text, note, technique)
 TABLE={
+"C09":("fault_enumeration","One cache entry is driven through every enumerated crash point of a store (SIGKILL of a child process at each hook hit), every injected write/close failure, every single-file tampering and concurrent store/load histories with widened lock windows (processes, and goroutines under the race detector), with the production wiring (disk bucket + file locks). Every read outcome is classified by an oracle that recomputes the b5 digest independently: success with wrong content, a complete marker over incomplete content, an undetected module-file tamper, or a failed repair refutes the property. Exhaustive over the enumerated points of the generated modules.","Crash = process kill at hook granularity; no power-loss model. Trusts the independent digest construction (harness/model/digestmodel.go) and porcupine. 'not cached' after a completed store is allowed by the property and only counted.","runtime monitoring: crash-point/fault/tamper enumeration with history oracle + porcupine + Go race detector"),
 "C13":("exploration","Exhaustive (to a length bound) enumeration of path spellings driven through every bucket kind and operation of the real storage packages while a sentinel monitor watches everything outside the root; held on the executions produced, exhaustive for the stated alphabet and bound only.","Trusts the lexical escape model (harness/model/pathmodel.go) as the definition of 'escapes'; symlink escapes and Windows path forms are not explored.","runtime monitoring: sentinel/invariant monitor + reference path model over exhaustive bounded enumeration"),
 "C14":("exploration","PRNG-generated operation histories applied to the real disk/memory/mapped buckets and, step by step, to a map[path]bytes reference model; every read on the bases, on random combinator compositions and on tar/zip round trips is compared with the (transformed) model; concurrent histories on the memory bucket are recorded at the client boundary and checked for linearizability with porcupine in a -race build. Held on the executions produced.","Trusts the reference model (harness/checks/c14.go viewModel + model.ContainsPath) and porcupine; domain restricted to prefix-free path sets as the property states.","runtime monitoring: reference-model monitor over random operation histories + porcupine linearizability check + Go race detector"),
 "C15":("fault_enumeration","Every single fault position (k-th Put, Write, short write, Close) of every listed write operation is enumerated from a fault-free dry run and injected through wrapper buckets/writers, through the storageos hook points on a real disk bucket, and as real EISDIR/limit failures; the atomic put is SIGKILLed at every hook-point hit while a concurrent reader polls. Oracle over the recorded outcome: fault fired => error; nil => destination equals source; readers and post-crash state see old or complete new content only. Exhaustive over single positions of the sources used (pairs in the thorough tier).","Crash = process kill at hook granularity (no power-loss model); wrapper faults model I/O errors at the storage interface; positions are those of the generated sources only.","runtime monitoring: fault/crash-point enumeration with injected failures (wrapper buckets, build-tag hooks, SIGKILL) and an outcome oracle"),
